@@ -29,6 +29,7 @@ import sys
 from . import common as C
 from .world import ServerWorld, _Quiet, decode_frames
 
+from engineio import exceptions as eio_exceptions
 from engineio import packet as eio_packet
 import socketio
 
@@ -90,6 +91,12 @@ class AsyncRun:
         self.elog = TaskLog(self.idx)
         w.eio.logger = self.elog
         self.loop = w.loop
+        self.fail_write = cfg.get('fail_write')
+        self.loop_errors = []      # what asyncio reports about tasks nobody awaited (cfg['fail_write'])
+        if self.fail_write is not None:
+            self.loop.set_exception_handler(
+                lambda loop, c: self.loop_errors.append(type(c.get('exception')).__name__ if c.get('exception') else
+                                                        str(c.get('message'))))
         self.task_of = {}
         self.tasks = {}
         self.gates = {}            # task idx -> (kind, ns, future)
@@ -155,6 +162,11 @@ class AsyncRun:
                 nth = sum(1 for e in self.timeline if e[0] == 'wenter' and e[1] == i and e[2] == eio_sid)
                 self.timeline.append(('wenter', i, eio_sid, pkt.data))
                 await self.gate('write', None, key='%d>%s#%d' % (i, eio_sid, nth))
+                if self.fail_write is not None and eio_sid == self.fail_write:
+                    # cfg['fail_write']: the transport of this member refuses the packet the way the real engine.io
+                    # does for a socket that is closed while its disconnect has not been processed yet
+                    self.timeline.append(('wfail', i, eio_sid))
+                    raise eio_exceptions.SocketIsClosedError()
                 self.timeline.append(('wdone', i, eio_sid))
             return await real_send_packet(eio_sid, pkt)
         w.eio.send_packet = send_packet
@@ -517,17 +529,25 @@ class AsyncRun:
                     elif e[0] == 'wenter' and e[1] == i_:
                         writes.append({'to': e[2], 'packet': e[3] if isinstance(e[3], str) else '<binary>',
                                        'session_ended_before': ended, 'taken': False})
-                    elif e[0] == 'wdone' and e[1] == i_:
+                    elif e[0] in ('wdone', 'wfail') and e[1] == i_:
                         for wr in writes:
                             if wr['to'] == e[2] and not wr['taken']:
                                 wr['taken'] = True
+                                if e[0] == 'wfail':
+                                    wr['failed'] = True
                                 break
                 emit[sname] = {'expect': self.expect.get(sname), 'writes': writes, 'session_ended': ended,
                                'writes_pending_at_end': pending_at_end,
-                               'finished': self.tasks[i_].done(), 'ack_table_left': self.sids[0] in mgr.callbacks,
+                               'finished': self.tasks[i_].done(),
+                               'raised': (type(self.tasks[i_].exception()).__name__
+                                          if self.tasks[i_].done() and not self.tasks[i_].cancelled()
+                                          and self.tasks[i_].exception() is not None else None),
+                               'ack_table_left': self.sids[0] in mgr.callbacks,
                                'callback_runs': len(self.cb_calls)}
             emit['delivered'] = delivered
             emit['others_connected'] = still
+            if self.fail_write is not None:
+                emit['failing_member'] = self.fail_write
         conn_info = {}
         n_causes_ = len(cfg['causes'])
         if self.conn_idx is not None:
@@ -801,6 +821,10 @@ def emit_oracle(obs):
     leaving = set()
     if 'bystander_disconnect' in obs.get('side_tasks', []):
         leaving.add('T2')
+    faulty = em.get('failing_member')
+    if faulty:
+        # the member whose transport refuses the write: nothing is required about what reaches IT
+        leaving.add(faulty)
     for kind in SIDE_EMIT:
         e = em.get(kind)
         if not e:
@@ -826,8 +850,17 @@ def emit_oracle(obs):
         for t in ex['members']:
             if t != 'T1' and t not in leaving and per.get(t, 0) != 1:
                 fails.append('%s: member %s of the addressed group was written to %d times' % (kind, t, per.get(t, 0)))
+        if not obs['causes'] and 'T1' in ex['members'] and n_emits == 1:
+            # nothing ends the session under test: it is a member like the others
+            got = (em.get('delivered') or {}).get('T1', 0)
+            if per.get('T1', 0) != 1 or got != 1:
+                fails.append('%s: member T1 (connected throughout) was written to %d times and received the event %d times'
+                             % (kind, per.get('T1', 0), got))
         if not e['finished']:
             fails.append('%s: the emit never returned' % kind)
+        if e.get('raised') and faulty and any(wr.get('failed') for wr in e['writes']):
+            fails.append('%s: the failure of the write to ONE recipient (%s) was raised out of emit() to the application: %s'
+                         % (kind, faulty, e['raised']))
         if e['session_ended'] and e['ack_table_left']:
             fails.append('%s: an ack-callback table exists for the session id after its end' % kind)
         if n_emits == 1:
@@ -1303,6 +1336,115 @@ def run_residue_schedules(ctx):
     cov['evaluations'] = cov.get('evaluations', 0) + st['runs']
     cov['traces_validated_against_impl'] = cov.get('traces_validated_against_impl', 0) + st['runs']
     return st
+
+
+# ---------------------------------------------------------------------------------- C03: one recipient's write fails
+
+FAULTY_POSITIONS = {'first': ['T2', 'T1', 'T4'], 'middle': ['T1', 'T2', 'T4'], 'last': ['T1', 'T4', 'T2'],
+                    'first-session-last': ['T2', 'T4', 'T1']}
+
+
+def emit_failure_oracle(obs):
+    """C03 while the transport write to ONE member of the addressed group fails (engine.io refuses the packet:
+    SocketIsClosedError): every OTHER member of the group that is connected receives the event exactly once -- whatever the
+    order in which the writes are taken, wherever the faulty member comes in the iteration -- and the failure of one
+    recipient is not raised out of emit() to the application (`emit_oracle`, with the faulty member exempt from the
+    delivery clause, plus the task clauses)."""
+    fails = list(emit_oracle(obs))
+    emit_tasks = [i for i, k in enumerate(obs['side_tasks'], start=len(obs['kinds'])) if k in SIDE_EMIT]
+    for (t, cls) in obs['raised']:
+        if t in emit_tasks and not any('raised out of emit()' in f for f in fails):
+            fails.append('emit task %r raised %s' % (t, cls))
+    if [i for i in obs['unfinished'] if i in emit_tasks]:
+        fails.append('emit tasks %r never finished' % (obs['unfinished'],))
+    return fails
+
+
+def run_emit_failure_schedules(ctx):
+    """C03 under a failing transport write (called by harness/props/c03.py): `sio.emit` to room R / to=[R1, R2] / the
+    namespace / room R with a callback as a task of its own on the real AsyncServer, every `eio.send_packet` made for it
+    suspended on a gate of its own; when the gate of the write to member T2 is released the transport raises
+    `engineio.exceptions.SocketIsClosedError` instead of taking the packet.  T2 first / in the middle / last in the
+    iteration order of the group (3 members).  All release orders, with no terminating cause and with one terminating cause
+    of another member (T1) in flight.  Oracle only (`emit_failure_oracle`).  Coverage key
+    `emit_with_a_failing_write_schedules`."""
+    st = {'runs': 0, 'fails': 0, 'per_config': {}, 'samples': [], 'failed_writes': 0, 'healthy_deliveries': 0,
+          'task_errors_kept_inside_their_task': 0}
+
+    def cfg_of(causes, kind, pos, mode):
+        return {'causes': list(causes), 'mode': mode, 'others': False, 'conn': False, 'side': [kind],
+                'emit_order': list(FAULTY_POSITIONS[pos]), 'fail_write': 'T2'}
+
+    def run_cfgs(cfgs, sample=None):
+        for cfg in cfgs:
+            if st['fails'] >= 3:
+                return
+            it = explore(cfg) if sample is None else (random_schedule(cfg, ctx.rng) for _ in range(sample))
+            n = 0
+            for obs in it:
+                n += 1
+                st['runs'] += 1
+                e = (obs.get('emit') or {}).get(cfg['side'][0]) or {}
+                st['failed_writes'] += sum(1 for wr in e.get('writes') or [] if wr.get('failed'))
+                st['healthy_deliveries'] += sum(v for t, v in ((obs.get('emit') or {}).get('delivered') or {}).items()
+                                                if t != cfg['fail_write'])
+                fails = emit_failure_oracle(obs)
+                if fails:
+                    st['fails'] += 1
+                    ctx.violation('oracle', 'an emit to a group in which the transport write to ONE member fails does not '
+                                  'reach every other connected member exactly once / raises to the application: %s' % fails,
+                                  {'kernel': 'sched_emit_failure', 'cfg': cfg, 'sched': obs['sched'], 'oracle': fails,
+                                   'emit': obs.get('emit')})
+                    if st['fails'] >= 3:
+                        break
+                elif len(st['samples']) < 3 and st['runs'] % 397 == 1:
+                    st['samples'].append({'cfg': cfg, 'sched': obs['sched'], 'emit': obs.get('emit')})
+            pos = [k for k, v in FAULTY_POSITIONS.items() if v == cfg['emit_order']][0]
+            key = ('+'.join(cfg['causes']) or 'no-cause') + '/' + cfg['mode'] + '/' + cfg['side'][0] + '/faulty-' + pos + \
+                ('/sampled' if sample else '')
+            st['per_config'][key] = st['per_config'].get(key, 0) + n
+            ctx.count('emit_failure_sched:' + cfg['side'][0], n)
+            ctx.count('emit_failure_sched_faulty:' + pos, n)
+            ctx.count('emit_failure_sched_causes:' + ('+'.join(cfg['causes']) or 'none'), n)
+
+    three = ('first', 'middle', 'last')
+    run_cfgs([cfg_of([], k, pos, 'both') for k in SIDE_EMIT for pos in FAULTY_POSITIONS])
+    run_cfgs([cfg_of([c], k, pos, 'handler') for c in CAUSES for k in SIDE_EMIT for pos in three])
+    if ctx.thorough:
+        run_cfgs([cfg_of([c], k, pos, 'both') for c in CAUSES for k in SIDE_EMIT for pos in FAULTY_POSITIONS])
+        run_cfgs([cfg_of(cs, k, ctx.rng.choice(three), 'both') for cs in cause_sets(2) if len(cs) == 2 for k in SIDE_EMIT],
+                 sample=40)
+    cov = ctx.coverage
+    cov['emit_with_a_failing_write_schedules'] = st['runs']
+    cov['emit_with_a_failing_write_failed_writes'] = st['failed_writes']
+    cov['emit_with_a_failing_write_deliveries_to_the_other_members'] = st['healthy_deliveries']
+    cov['emit_with_a_failing_write_schedules_per_config'] = st['per_config']
+    cov['emit_with_a_failing_write_samples'] = st['samples']
+    cov['emit_with_a_failing_write_rule'] = (
+        'ORACLE ONLY, real AsyncServer under the controlled scheduler of harness/sched_async.py: sio.emit to room R / '
+        'to=[R1, R2] / the namespace / room R with a callback as a task of its own; every eio.send_packet made for it (from '
+        'the emit task or tasks the library starts for it) is suspended on its own gate, and the one addressed to member T2 '
+        'raises engineio.exceptions.SocketIsClosedError when released (a socket that is closed while its disconnect has '
+        'not been processed: the member is still listed). T2 first / middle / last in the iteration order of a 3-member '
+        'group; all release orders with no terminating cause and with one (client DISCONNECT / disconnect() / transport '
+        'loss of member T1, suspended in its disconnect handler' + ('; thorough: suspended in handler and send, two causes '
+        'sampled' if ctx.thorough else '') + '). Required: every other member that stays connected is written to and '
+        'receives the event exactly once, nobody outside the group is written to, the emit returns and raises nothing to '
+        'the application')
+    cov['evaluations'] = cov.get('evaluations', 0) + st['runs']
+    cov['traces_validated_against_impl'] = cov.get('traces_validated_against_impl', 0) + st['runs']
+    return st
+
+
+def replay_emit_failure(ctx, rep):
+    obs = replay_schedule(rep['cfg'], rep['sched'])
+    print('configuration: ', json.dumps(rep['cfg']))
+    print('schedule:      ', json.dumps(obs['sched']))
+    print('emit:          ', json.dumps(obs.get('emit'), default=str))
+    print('raised:        ', json.dumps(obs['raised'], default=str))
+    fails = emit_failure_oracle(obs)
+    print('oracle:        ', 'holds' if not fails else fails)
+    return 1 if fails else 0
 
 
 def replay_residue(ctx, rep):
